@@ -31,14 +31,15 @@ type failure struct{ key, desc string }
 
 // result is what one execution reports back.
 type result struct {
-	fail    *failure
-	harness string
-	outcome string
-	sample  map[string]any
-	inLen   int // record: stream lengths and frame ends
-	outLen  int
-	inEnds  []int
-	outEnds []int
+	fail       *failure
+	harness    string
+	outcome    string
+	reconnects uint64 // Metrics().Reconnects() at the end of a recovered execution
+	sample     map[string]any
+	inLen      int // record: stream lengths and frame ends
+	outLen     int
+	inEnds     []int
+	outEnds    []int
 }
 
 var onLeak func(string)
@@ -649,7 +650,8 @@ func (x *exec) runFault() (res result) {
 		return res
 	}
 	res.outcome = fmt.Sprintf("%s:%s:%s:%s:%s:%s:recovered", roleName(cs.Active), cs.Dir, x.phase, x.posClass(), x.faultName(), timer)
-	res.sample = map[string]any{"case": cs, "where": x.describe(), "covered_by": timer, "fault_at": x.tF.String(), "link_dropped_at": fmt.Sprint(tDs),
+	res.reconnects = w.C.Metrics().Reconnects()
+	res.sample = map[string]any{"case": cs, "where": x.describe(), "covered_by": timer, "reconnects_at_end": res.reconnects, "fault_at": x.tF.String(), "link_dropped_at": fmt.Sprint(tDs),
 		"attempt_gaps": fmt.Sprint(allGaps), "attempts": x.attemptLog()}
 	return res
 }
